@@ -104,7 +104,8 @@ def render_module(m, style="header", comments=False, alt=False):
         for x in m.get("wires", ()):
             w("  %swire %s%s;" % (attrs_text(x[3]) if len(x) > 3 and x[3] else "", rng(x[1], x[2]), esc(x[0])))
     if comments:
-        w("  /* block comment\n     over two lines */")
+        w("  /* block comment\n     over two lines: gain * / 2, / * and // and ** / inside **/")
+        w("  // a line comment with /* inside and a * / pair")
     for x in m.get("insts", ()):
         head = attrs_text(x.get("attrs")) + "  " + esc(x["module"])
         if x.get("params") and not alt:
